@@ -28,11 +28,16 @@ Definition d_kind (s : sx) : option msgkind :=
   | SZ 0 => Some MVt | SZ 1 => Some MGogo | SZ 2 => Some MGeneric | SZ 3 => Some MNotProto | SZ 4 => Some MMarshalErr
   | _ => None
   end.
-Definition d_cfg (s : sx) : option wcfg :=
+(* the SET of retry-related options the API value was built with (canonical order; the driver applies them,
+   together with the path / logger / http client options, in a seeded order) *)
+Definition d_option (s : sx) : option api_option :=
   match s with
-  | SL [SZ mn; SZ mx; SZ mr; r] => match dB r with Some r => Some (mkCfg mn mx mr r) | None => None end
+  | SL [SZ 0; SZ mn; SZ mx; SZ mr] => Some (OBackoff mn mx mr)
+  | SL [SZ 1] => Some ONoRetry429
   | _ => None
   end.
+Definition d_cfg (s : sx) : option wcfg :=
+  match dL d_option s with Some l => Some (apply_options l) | None => None end.
 Definition d_req (s : sx) : option oreq :=
   match s with
   | SL [ct; ce; v; rt; ok] =>
